@@ -134,3 +134,222 @@ theorem spOK_free {d : Gen.D} {sp : Sp} (hch : sp.ch = noX) (hbang : sp.bang = f
   · rw [hC]; cases c.2 <;> rfl
   · rw [hT]; cases a <;> rfl
 end TSP
+
+namespace TSP
+/-- `_parse_select_statement` with the WITH slot already consumed (as `pStatement` calls it) -/
+theorem stmt_some {d : Gen.D} {sp : Sp} (hsp : SpOK d sp) (q : Query) (hq : FragQ d q = true) (rest : List Tok) (hr : stopsQ d rest = true) :
+    OkAt (fun f => pSelectStmt d f (some []) (toksQ d sp q ++ rest)) (20 * sizeL (toksQ d sp q) + 9) (q, rest) := by
+  cases q with
+  | single s =>
+    simp only [FragQ] at hq
+    have := stmt_core (some []) (Or.inr rfl) s [] (srec_of hsp s hq) trivial rest hr
+    simpa [toksQ, toksUn] using this
+  | union ws s us =>
+    cases ws with
+    | none => simp [FragQ] at hq
+    | some l =>
+      cases l with
+      | cons _ _ => simp [FragQ] at hq
+      | nil =>
+        simp only [FragQ, Bool.and_eq_true, Bool.not_eq_true', Bool.true_and] at hq
+        have := stmt_core (some []) (Or.inr rfl) s us (srec_of hsp s hq.1.1) (unrec_of hsp us hq.1.2) rest hr
+        simpa [toksQ, hq.2] using this
+theorem toksQ_head {d : Gen.D} {sp : Sp} (hsp : SpOK d sp) (q : Query) (hq : FragQ d q = true) : ∃ x, toksQ d sp q = opTok "SELECT" :: x :=
+  (qt hsp q hq).head
+
+/-! ### spelling records used below -/
+/-- every alternative spelling that is admissible in every dialect and for every alias: `<>`, `&&`, `||`, `DIV` / `MOD`, `ASC`, `OFFSET` -/
+def altSp : Sp := ⟨noX, fun _ => true, fun _ => true, fun _ => true, fun _ => false, fun _ => true, fun _ => false, fun _ => false,
+  fun _ => true, fun _ _ => true⟩
+/-- the printer's spellings, except `!` at EVERY `NOT` node -/
+def bangAll : Sp := { plain with bang := fun _ => true }
+/-- the printer's spellings, except that `AS` is dropped wherever `bareOK` allows it -/
+def bareSp (d : Gen.D) : Sp :=
+  { plain with bareC := fun c => match c.2 with | some a => bareOK d a | none => false,
+               bareT := fun t => match t with | .mk _ (some a) => bareOK d a | .mk _ none => false }
+theorem spOK_alt (d : Gen.D) : SpOK d altSp := spOK_free rfl rfl rfl rfl
+theorem spOK_plain (d : Gen.D) : SpOK d plain := spOK_free rfl rfl rfl rfl
+theorem spOK_bangAll : SpOK .HIVE bangAll :=
+  spOK_of TQ.chOK_noX (fun _ _ => rfl) (fun c => by cases c.2 <;> rfl) (fun t a => by cases a <;> rfl)
+theorem spOK_bare (d : Gen.D) : SpOK d (bareSp d) := by
+  refine spOK_of TQ.chOK_noX (fun e h => by simp [bareSp, plain, plainCh] at h) (fun c => ?_) (fun t a => ?_)
+  · obtain ⟨e, a⟩ := c
+    cases a with
+    | none => rfl
+    | some a => cases h : bareOK d a <;> simp [bareSp, optBareOK, h]
+  · cases a with
+    | none => rfl
+    | some a => cases h : bareOK d a <;> simp [bareSp, optBareOK, h]
+end TSP
+
+namespace C09
+/-- the spelled token printers -/
+abbrev toksQsp := TSP.toksQ
+abbrev toksEsp := TSP.toksE3
+
+/-- **spelling-generalised T-parse, queries.**  Whatever admissible choice `sp` of operator spellings, noise words and redundant brackets
+the rendering of a fragment query is written with, the parser returns exactly that tree -/
+theorem tquery_spellings (d : Gen.D) (sp : TSP.Sp) (hsp : TSP.SpOK d sp) (q : Query) (hq : FragQ d q = true) (rest : List Tok)
+    (hr : stopsQ d rest = true) (fuel : Nat) (hfuel : 20 * sizeL (TSP.toksQ d sp q) + 9 ≤ fuel) :
+    pSelectStmt d fuel none (TSP.toksQ d sp q ++ rest) = .ok (q, rest) :=
+  (TSP.qt hsp q hq).parse rest hr fuel hfuel
+/-- the fuel the public entry points compute from the token list dominates the bound -/
+theorem tquery_spellings_entry_fuel (d : Gen.D) (sp : TSP.Sp) (hsp : TSP.SpOK d sp) (q : Query) (hq : FragQ d q = true) (rest : List Tok)
+    (hr : stopsQ d rest = true) : pSelectStmt d (fuelFor (TSP.toksQ d sp q ++ rest)) none (TSP.toksQ d sp q ++ rest) = .ok (q, rest) :=
+  tquery_spellings d sp hsp q hq rest hr _ (by simp only [fuelFor, sizeL_append]; omega)
+/-- the expression half -/
+theorem texpr_spellings (d : Gen.D) (sp : TSP.Sp) (hsp : TSP.SpOK d sp) (e : Expr) (hf : FragE3 d e = true) (rest : List Tok)
+    (hr : TP2.stops2 d rest = true) (fuel : Nat) (hfuel : 20 * sizeL (TSP.toksE3 d sp e) + 15 ≤ fuel) :
+    pOr d fuel (TSP.toksE3 d sp e ++ rest) = .ok (e, rest) :=
+  (TSP.rt3 hsp e hf).own.s14 rest hr fuel hfuel
+
+/-- **any two spellings, equal results**: the tree AND the remaining tokens -/
+theorem spelling_invariance (d : Gen.D) (sp sp' : TSP.Sp) (hsp : TSP.SpOK d sp) (hsp' : TSP.SpOK d sp') (q : Query) (hq : FragQ d q = true)
+    (rest : List Tok) (hr : stopsQ d rest = true) :
+    pSelectStmt d (fuelFor (TSP.toksQ d sp q ++ rest)) none (TSP.toksQ d sp q ++ rest) =
+      pSelectStmt d (fuelFor (TSP.toksQ d sp' q ++ rest)) none (TSP.toksQ d sp' q ++ rest) := by
+  rw [tquery_spellings_entry_fuel d sp hsp q hq rest hr, tquery_spellings_entry_fuel d sp' hsp' q hq rest hr]
+theorem spelling_invariance_expr (d : Gen.D) (sp sp' : TSP.Sp) (hsp : TSP.SpOK d sp) (hsp' : TSP.SpOK d sp') (e : Expr) (hf : FragE3 d e = true)
+    (rest : List Tok) (hr : TP2.stops2 d rest = true) :
+    pOr d (fuelFor (TSP.toksE3 d sp e ++ rest)) (TSP.toksE3 d sp e ++ rest) = pOr d (fuelFor (TSP.toksE3 d sp' e ++ rest)) (TSP.toksE3 d sp' e ++ rest) := by
+  rw [texpr_spellings d sp hsp e hf rest hr _ (by simp only [fuelFor, sizeL_append]; omega),
+    texpr_spellings d sp' hsp' e hf rest hr _ (by simp only [fuelFor, sizeL_append]; omega)]
+/-- a spelled rendering determines the tree: two fragment queries with equal renderings (under whatever two spelling choices) are equal -/
+theorem spelling_determines_nothing (d : Gen.D) (sp sp' : TSP.Sp) (hsp : TSP.SpOK d sp) (hsp' : TSP.SpOK d sp') (q q' : Query)
+    (hq : FragQ d q = true) (hq' : FragQ d q' = true) (h : TSP.toksQ d sp q = TSP.toksQ d sp' q') : q = q' := by
+  have a := tquery_spellings_entry_fuel d sp hsp q hq [] rfl
+  have b := tquery_spellings_entry_fuel d sp' hsp' q' hq' [] rfl
+  rw [h, b] at a
+  simp only [Except.ok.injEq, Prod.mk.injEq, and_true] at a
+  exact a.symm
+
+/-- **the same through the statement level**: one iteration of the loop of `parse_statements` -/
+theorem tquery_spellings_statement (d : Gen.D) (sp : TSP.Sp) (hsp : TSP.SpOK d sp) (q : Query) (hq : FragQ d q = true) (rest : List Tok)
+    (hr : stopsQ d rest = true) (fuel : Nat) (hfuel : 20 * sizeL (TSP.toksQ d sp q) + 9 ≤ fuel) :
+    pStatement d fuel (TSP.toksQ d sp q ++ rest) = .ok (.select q, rest) := by
+  obtain ⟨x, hx⟩ := TSP.toksQ_head hsp q hq
+  obtain ⟨g, rfl⟩ : ∃ g, fuel = g + 1 := ⟨fuel - 1, by omega⟩
+  have hsel := TSP.stmt_some hsp q hq rest hr (g + 1) (by omega)
+  rw [hx] at hsel ⊢
+  simp only [List.cons_append] at hsel ⊢
+  have k : ∀ w : String, w ≠ "SELECT" → (opTok "SELECT").srcEqUp w = false := by
+    intro w hw
+    have : up (opTok "SELECT").src = "SELECT" := by decide
+    simp only [Tok.srcEqUp, this, beq_eq_false_iff_ne, ne_eq]
+    exact fun h => hw h.symm
+  have s1 : ∀ w : String, w ≠ "SELECT" → searchStrUp (opTok "SELECT" :: (x ++ rest)) w = false := by
+    intro w hw; simpa [searchStrUp] using k w hw
+  have s2 : ∀ a b : String, a ≠ "SELECT" → searchTwoUp (opTok "SELECT" :: (x ++ rest)) a b = false := by
+    intro a b ha
+    cases hxr : x ++ rest <;> simp [searchTwoUp, hxr, k a ha]
+  have s3 : ∀ a b c : String, a ≠ "SELECT" → searchThreeUp (opTok "SELECT" :: (x ++ rest)) a b c = false := by
+    intro a b c ha
+    rcases hxr : x ++ rest with _ | ⟨y, _ | ⟨z, r⟩⟩ <;> simp [searchThreeUp, hxr, k a ha]
+  have sS : searchStrUp (opTok "SELECT" :: (x ++ rest)) "SELECT" = true := by
+    have : (opTok "SELECT").srcEqUp "SELECT" = true := by decide
+    simpa [searchStrUp] using this
+  have hw := TQ.with_absent (d := d) (x ++ rest) g
+  unfold pStatement
+  simp only [s1 "SET" (by decide), s2 "DELETE" "FROM" (by decide), s2 "DROP" "TABLE" (by decide), s2 "CREATE" "TABLE" (by decide),
+    s2 "ANALYZE" "TABLE" (by decide), s2 "ALTER" "TABLE" (by decide), s3 "MSCK" "REPAIR" "TABLE" (by decide), s1 "USE" (by decide),
+    s2 "TRUNCATE" "TABLE" (by decide), s2 "SHOW" "DATABASES" (by decide), s2 "SHOW" "TABLES" (by decide), s2 "SHOW" "COLUMNS" (by decide),
+    Bool.false_eq_true, if_false, hw, sS, if_true, hsel]
+
+/-! ### what the spelled printer writes at the productions with a choice (the normal form is the tree on the right of the theorems) -/
+theorem toks_compare (d : Gen.D) (sp : TSP.Sp) (o : String) (l r : Expr) :
+    TSP.toksE3 d sp (.compare o l r) = TSP.W3 d sp l 10 ++ TSP.cmpTok (sp.ne (.compare o l r)) o :: TSP.W3 d sp r 9 := by
+  simp only [TSP.toksE3, TSP.W3]
+theorem toks_and (d : Gen.D) (sp : TSP.Sp) (l r : Expr) :
+    TSP.toksE3 d sp (.and_ l r) = TSP.W3 d sp l 12 ++ TSP.andTok (sp.amp (.and_ l r)) :: TSP.W3 d sp r 11 := by simp only [TSP.toksE3, TSP.W3]
+theorem toks_or (d : Gen.D) (sp : TSP.Sp) (l r : Expr) :
+    TSP.toksE3 d sp (.or_ l r) = TSP.W3 d sp l 14 ++ TSP.orTok (sp.bar (.or_ l r)) :: TSP.W3 d sp r 13 := by simp only [TSP.toksE3, TSP.W3]
+theorem toks_not (d : Gen.D) (sp : TSP.Sp) (x : Expr) :
+    TSP.toksE3 d sp (.not_ x) = TSP.notTok (sp.bang (.not_ x)) :: TSP.W3 d sp x 11 := by simp only [TSP.toksE3, TSP.W3]
+theorem spelled_tokens : TSP.cmpTok true "NEQ" = opTok "<>" ∧ TSP.cmpTok false "NEQ" = opTok "!=" ∧ TSP.andTok true = opTok "&&" ∧
+    TSP.andTok false = opTok "AND" ∧ TSP.orTok true = opTok "||" ∧ TSP.orTok false = opTok "OR" ∧ TSP.notTok true = opTok "!" ∧
+    TSP.notTok false = opTok "NOT" ∧ TSP.cvalSp true "DIVIDE" = "DIV" ∧ TSP.cvalSp false "DIVIDE" = "/" ∧ TSP.cvalSp true "MOD" = "MOD" ∧
+    TSP.cvalSp false "MOD" = "%" := by
+  have h : cmpVal "NEQ" = "!=" := by decide
+  exact ⟨by simp [TSP.cmpTok], by simp [TSP.cmpTok, h], rfl, rfl, rfl, rfl, rfl, rfl, by decide, by decide, by decide, by decide⟩
+
+/-- `l != r` and `l <> r` are the SAME comparison node `NEQ` (the tree stores the member name, never the spelling) -/
+theorem neq_spellings (d : Gen.D) (sp : TSP.Sp) (hsp : TSP.SpOK d sp) (l r : Expr) (hf : FragE3 d (.compare "NEQ" l r) = true) (b : Bool)
+    (hb : sp.ne (.compare "NEQ" l r) = b) (rest : List Tok) (hr : TP2.stops2 d rest = true) (fuel : Nat)
+    (hfuel : 20 * sizeL (TSP.toksE3 d sp (.compare "NEQ" l r)) + 15 ≤ fuel) :
+    pOr d fuel (TSP.W3 d sp l 10 ++ (if b then opTok "<>" else opTok "!=") :: (TSP.W3 d sp r 9 ++ rest)) = .ok (.compare "NEQ" l r, rest) := by
+  have := texpr_spellings d sp hsp _ hf rest hr fuel hfuel
+  rw [toks_compare, hb] at this
+  cases b <;> simpa [spelled_tokens.1, spelled_tokens.2.1] using this
+/-- `l AND r` / `l && r` ↦ `.and_ l r` -/
+theorem and_spellings (d : Gen.D) (sp : TSP.Sp) (hsp : TSP.SpOK d sp) (l r : Expr) (hf : FragE3 d (.and_ l r) = true) (b : Bool)
+    (hb : sp.amp (.and_ l r) = b) (rest : List Tok) (hr : TP2.stops2 d rest = true) (fuel : Nat)
+    (hfuel : 20 * sizeL (TSP.toksE3 d sp (.and_ l r)) + 15 ≤ fuel) :
+    pOr d fuel (TSP.W3 d sp l 12 ++ (if b then opTok "&&" else opTok "AND") :: (TSP.W3 d sp r 11 ++ rest)) = .ok (.and_ l r, rest) := by
+  have := texpr_spellings d sp hsp _ hf rest hr fuel hfuel
+  rw [toks_and, hb] at this
+  cases b <;> simpa [TSP.andTok] using this
+/-- `l OR r` / `l || r` ↦ `.or_ l r` -/
+theorem or_spellings (d : Gen.D) (sp : TSP.Sp) (hsp : TSP.SpOK d sp) (l r : Expr) (hf : FragE3 d (.or_ l r) = true) (b : Bool)
+    (hb : sp.bar (.or_ l r) = b) (rest : List Tok) (hr : TP2.stops2 d rest = true) (fuel : Nat)
+    (hfuel : 20 * sizeL (TSP.toksE3 d sp (.or_ l r)) + 15 ≤ fuel) :
+    pOr d fuel (TSP.W3 d sp l 14 ++ (if b then opTok "||" else opTok "OR") :: (TSP.W3 d sp r 13 ++ rest)) = .ok (.or_ l r, rest) := by
+  have := texpr_spellings d sp hsp _ hf rest hr fuel hfuel
+  rw [toks_or, hb] at this
+  cases b <;> simpa [TSP.orTok] using this
+end C09
+
+namespace C13
+/-- **Hive: `! x` is `NOT x`.**  In the Hive dialect the word `!` in front of (the rendering at the NOT level of) any fragment expression
+parses to the logical negation of that expression — the same tree as `NOT x` -/
+theorem hive_bang_is_not (sp : TSP.Sp) (hsp : TSP.SpOK .HIVE sp) (x : Expr) (hf : FragE3 .HIVE x = true) (b : Bool)
+    (hb : sp.bang (.not_ x) = b) (rest : List Tok) (hr : TP2.stops2 .HIVE rest = true) (fuel : Nat)
+    (hfuel : 20 * sizeL (TSP.toksE3 .HIVE sp (.not_ x)) + 15 ≤ fuel) :
+    pOr .HIVE fuel ((if b then opTok "!" else opTok "NOT") :: (TSP.W3 .HIVE sp x 11 ++ rest)) = .ok (.not_ x, rest) := by
+  have := C09.texpr_spellings .HIVE sp hsp (.not_ x) (by simpa [FragE3] using hf) rest hr fuel hfuel
+  rw [C09.toks_not, hb] at this
+  cases b <;> simpa [TSP.notTok] using this
+/-- **the dialect's spelling is honoured at every depth**: with `!` written at EVERY `NOT` node of a nested fragment query — in select
+items, conditions, sub-queries in expressions, derived tables, branches of set operations, to any depth — the Hive parser returns the
+tree: the dialect is the same `d` in every recursive call of the parser -/
+theorem dialect_governs_nested (q : Query) (hq : FragQ .HIVE q = true) (rest : List Tok) (hr : stopsQ .HIVE rest = true) (fuel : Nat)
+    (hfuel : 20 * sizeL (TSP.toksQ .HIVE TSP.bangAll q) + 9 ≤ fuel) :
+    pSelectStmt .HIVE fuel none (TSP.toksQ .HIVE TSP.bangAll q ++ rest) = .ok (q, rest) :=
+  C09.tquery_spellings .HIVE TSP.bangAll TSP.spOK_bangAll q hq rest hr fuel hfuel
+/-- under `bangAll` every `NOT` node is written with `!` -/
+theorem bangAll_writes_bang (d : Gen.D) (x : Expr) : TSP.toksE3 d TSP.bangAll (.not_ x) = opTok "!" :: TSP.W3 d TSP.bangAll x 11 := by
+  rw [C09.toks_not]; rfl
+/-- `!` is a NOT word of the Hive dialect and of no other; it is a unary operator of every dialect but Hive -/
+theorem bang_word_hive_only : Gen.allD.all (fun d => (Gen.notSet d).contains "!" == (d == .HIVE) && (Gen.unarySet d).contains "!" == (d != .HIVE)) = true := by
+  decide
+def isNotA (r : Except Err (Expr × List Tok)) : Bool := match r with | .ok (.not_ (.column none "a"), []) => true | _ => false
+def isInvA (r : Except Err (Expr × List Tok)) : Bool :=
+  match r with | .ok (.unary "LOGICAL_INVERSION" (.column none "a"), []) => true | _ => false
+/-- **separating instance**: `! a` is `NOT a` for Hive and the unary operator `LOGICAL_INVERSION` applied to `a` in every other dialect -/
+theorem bang_not_hive_only :
+    Gen.allD.all (fun d => if d == .HIVE then isNotA (pOr d 60 [opTok "!", nameTok "a"]) else isInvA (pOr d 60 [opTok "!", nameTok "a"])) = true := by
+  decide
+def isBangIn (r : Except Err (Expr × List Tok)) : Bool :=
+  match r with | .ok (.compute (.column none "a") "LOGICAL_INVERSION" (.func none "IN" [.literal "1"]), []) => true | _ => false
+def isNotIn (r : Except Err (Expr × List Tok)) : Bool :=
+  match r with | .ok (.kw .in_ true (.column none "a") (.subValue [.literal "1"]), []) => true | _ => false
+/-- **witness (finding candidate)**: in the Hive dialect `a NOT IN (1)` is the negated IN predicate, but `a ! IN (1)` is NOT: the compute
+level takes `!` as a binary operator and `IN (1)` as a function call — the `!` of `get_not_operator_set` in the keyword-predicate position
+(`parser.py:902`) is dead code -/
+theorem witness_hive_bang_before_in :
+    isNotIn (pOr .HIVE 80 [nameTok "a", opTok "NOT", opTok "IN", grp [litTok "1"]]) = true ∧
+    isBangIn (pOr .HIVE 80 [nameTok "a", opTok "!", opTok "IN", grp [litTok "1"]]) = true := by decide
+end C13
+
+namespace C09
+def isJoinTy (r : Option (String × List Tok)) (ty : String) : Bool := match r with | some (n, []) => n == ty | _ => false
+/-- **not alike**: `INNER JOIN` is stored as join type `INNER_JOIN`, `JOIN` as `JOIN` — two different trees -/
+theorem inner_join_is_not_join : isJoinTy (firstEnum Gen.joinTypes [opTok "INNER", opTok "JOIN"]) "INNER_JOIN" = true ∧
+    isJoinTy (firstEnum Gen.joinTypes [opTok "JOIN"]) "JOIN" = true := by decide
+def isParseErr {α : Type} (r : Except Err α) : Bool := match r with | .error .parse => true | _ => false
+/-- **not alike**: `UNION DISTINCT` is no set operator of the table: `SELECT a UNION DISTINCT SELECT b` is a parse error -/
+theorem union_distinct_rejected :
+    isParseErr (pSelectStmt .MYSQL 200 none [opTok "SELECT", nameTok "a", opTok "UNION", opTok "DISTINCT", opTok "SELECT", nameTok "b"]) = true := by decide
+/-- **not alike**: the `AND` of `BETWEEN … AND …` is matched by word: `a BETWEEN 1 && 2` is a parse error, `&&` is only the conjunction -/
+theorem amp_is_not_between_and :
+    isParseErr (pOr .MYSQL 100 [nameTok "a", opTok "BETWEEN", litTok "1", opTok "&&", litTok "2"]) = true := by decide
+end C09
